@@ -471,7 +471,20 @@ fn op_fail(what: &str, loc_msg: String) -> Failure {
 }
 
 pub fn open_db(base: &Path) -> Result<Db, Failure> {
-    match catch(|| Db::open(base)) {
+    // The page file is flock'ed by an open handle. A child process forked by another thread of
+    // this harness shares our descriptors until it execs, so a just-dropped handle's lock
+    // can linger for a moment: retry briefly (a leaked lock would outlast the retries).
+    let mut r = catch(|| Db::open(base));
+    for _ in 0..20 {
+        match &r {
+            Ok(Err(e)) if e.to_string().contains("already open for writing") => {
+                std::thread::sleep(std::time::Duration::from_millis(50));
+                r = catch(|| Db::open(base));
+            }
+            _ => break,
+        }
+    }
+    match r {
         Ok(Ok(db)) => Ok(db),
         Ok(Err(e)) => Err(op_fail("open", e.to_string())),
         Err((loc, msg)) => Err(Failure::new(format!("panic@{loc}"), format!("open panicked at {loc}: {msg}"))),
